@@ -701,8 +701,116 @@ impl Space for Overwrite {
     }
 }
 
+// ------------------------------------------------------------------------------------------------
+/// (annotated) a cell's content must not depend on what else is attached to its position: every core16 value at an
+/// off-diagonal / diagonal position, with one annotation that the reader applies in a pass of its own (hyperlink,
+/// comment, data validation, conditional format, merged block), with and without a cell at the transposed position.
+const ANN_POS: [(&str, &str); 4] = [("A5", "E1"), ("C7", "G3"), ("D2", "B4"), ("B2", "B2")];
+const ANNOTATIONS: [&str; 7] = ["link-url", "link-location", "comment", "validation", "cond-format", "merge-corner", "link+comment"];
+struct Annotated {
+    values: Vec<V>,
+}
+impl Annotated {
+    fn decode(&self, i: u64) -> (usize, usize, bool, usize) {
+        let a = (i % ANNOTATIONS.len() as u64) as usize;
+        let r = i / ANNOTATIONS.len() as u64;
+        let tr = r % 2 == 1;
+        let r = r / 2;
+        let p = (r % ANN_POS.len() as u64) as usize;
+        ((r / ANN_POS.len() as u64) as usize, p, tr, a)
+    }
+}
+impl Space for Annotated {
+    fn len(&self) -> u64 {
+        (self.values.len() * ANN_POS.len() * 2 * ANNOTATIONS.len()) as u64
+    }
+    fn describe(&self, i: u64) -> Value {
+        let (v, p, tr, a) = self.decode(i);
+        json!({"kind":"annotated","value": self.values[v].json(), "position": ANN_POS[p].0, "annotation": ANNOTATIONS[a], "cell_at_transposed_position": if tr { json!(ANN_POS[p].1) } else { Value::Null }})
+    }
+    fn tags(&self, i: u64) -> Vec<String> {
+        let (v, p, tr, a) = self.decode(i);
+        let mut t = self.values[v].tags();
+        t.push(format!("annotation:{}", ANNOTATIONS[a]));
+        if ANN_POS[p].0 != ANN_POS[p].1 {
+            t.push("off-diagonal".into());
+        }
+        if tr {
+            t.push("transposed-cell-present".into());
+        }
+        t
+    }
+    fn run(&self, i: u64, sink: &mut Sink) {
+        let (v, p, tr, a) = self.decode(i);
+        let pos = ANN_POS[p].0;
+        let mut b = new_file();
+        let ws = b.get_sheet_mut(&0).unwrap();
+        self.values[v].apply(ws.get_cell_mut(pos));
+        if tr && ANN_POS[p].1 != pos {
+            ws.get_cell_mut(ANN_POS[p].1).set_value_string("transposed");
+        }
+        let ann = ANNOTATIONS[a];
+        if ann.starts_with("link") {
+            let h = ws.get_cell_mut(pos).get_hyperlink_mut();
+            if ann == "link-location" {
+                h.set_url("Sheet1!A1");
+                h.set_location(true);
+            } else {
+                h.set_url("https://example.com/x?a=1&b=2");
+                h.set_tooltip("tip");
+            }
+        }
+        if ann.ends_with("comment") {
+            let mut c = Comment::default();
+            c.new_comment(pos);
+            c.set_author("author");
+            c.set_text_string("a comment");
+            ws.add_comments(c);
+        }
+        match ann {
+            "validation" => {
+                let mut dv = DataValidation::default();
+                dv.set_type(DataValidationValues::Whole);
+                dv.set_formula1("1");
+                dv.set_formula2("10");
+                dv.set_operator(DataValidationOperatorValues::Between);
+                let mut seq = SequenceOfReferences::default();
+                seq.set_sqref(pos);
+                dv.set_sequence_of_references(seq);
+                let mut dvs = DataValidations::default();
+                dvs.add_data_validation_list(dv);
+                ws.set_data_validations(dvs);
+            }
+            "cond-format" => {
+                let mut form = Formula::default();
+                form.set_string_value("5");
+                let mut rule = ConditionalFormattingRule::default();
+                rule.set_type(ConditionalFormatValues::CellIs).set_operator(ConditionalFormattingOperatorValues::GreaterThan).set_priority(1).set_formula(form);
+                let mut seq = SequenceOfReferences::default();
+                seq.set_sqref(pos);
+                let mut cf = ConditionalFormatting::default();
+                cf.set_sequence_of_references(seq);
+                cf.set_conditional_collection(vec![rule]);
+                ws.set_conditional_formatting_collection(vec![cf]);
+            }
+            "merge-corner" => {
+                // the cell is the top-left corner of a 2x2 merged block
+                let (c, r) = {
+                    let co = ws.get_cell(pos).map(|c| (*c.get_coordinate().get_col_num(), *c.get_coordinate().get_row_num())).unwrap_or((1, 1));
+                    co
+                };
+                let end = umya_spreadsheet::helper::coordinate::coordinate_from_index(&(c + 1), &(r + 1));
+                ws.add_merge_cells(format!("{}:{}", pos, end));
+            }
+            _ => {}
+        }
+        check_book(&b, i % 2 == 1, &self.tags(i), &self.describe(i), sink);
+    }
+}
+
 pub fn space(tier: Tier, id: &str) -> Option<Box<dyn Space>> {
     match id {
+        "annotated" => Some(Box::new(Annotated { values: core16() })),
         "overwrite" => Some(Box::new(Overwrite { values: core16(), depth: if tier == Tier::Thorough { 3 } else { 2 } })),
         "built" => Some(Box::new(Built { values: core16() })),
         "singles" => Some(Box::new(Singles { values: single_values(tier) })),
@@ -718,7 +826,7 @@ fn replay(tier: Tier, case: &Value) -> Vec<Violation> {
 }
 
 fn run(ctx: &Ctx) -> i32 {
-    let ids: Vec<&'static str> = if ctx.tier == Tier::Thorough { vec!["singles", "pairs", "triples", "grid", "built", "overwrite"] } else { vec!["singles", "pairs", "grid", "built", "overwrite"] };
+    let ids: Vec<&'static str> = if ctx.tier == Tier::Thorough { vec!["singles", "pairs", "triples", "grid", "built", "overwrite", "annotated"] } else { vec!["singles", "pairs", "grid", "built", "overwrite", "annotated"] };
     let spaces = ids.iter().map(|id| (*id, space(ctx.tier, id).unwrap())).collect();
     run_e1(
         ctx,
